@@ -143,3 +143,115 @@ Proof.
   assert (Hin : In (fst e) (map fst s)) by (apply Hi, in_map, He).
   apply in_map_iff in Hin. destruct Hin as [e' [E Hin]]. rewrite <- E. apply Hf, Hin.
 Qed.
+
+Lemma kinv_complete k stk done stk2 key (ring : list pt) :
+  kinv k stk done -> incl (map fst stk2) (map fst stk) -> NoDup (map fst stk2) ->
+  In key (map fst stk) -> ~ In key (map fst stk2) ->
+  kinv k stk2 (done ++ [(key, ring)]).
+Proof.
+  intros [Kn Kl Dn Dl Df] Hi Hn Hk Hk2. constructor.
+  - exact Hn.
+  - apply (Forall_incl_fst (fun z => z <= k) stk stk2 Hi Kl).
+  - rewrite map_app. cbn [map fst]. apply NoDup_snoc; [exact Dn |]. intro H. apply (Df key H Hk).
+  - apply Forall_app. split; [exact Dl |]. constructor; [| constructor]. cbn [fst].
+    apply in_map_iff in Hk. destruct Hk as [e [E He]]. rewrite Forall_forall in Kl. rewrite <- E. apply Kl, He.
+  - intros key' H. rewrite map_app in H. apply in_app_or in H. destruct H as [H | [<- | []]].
+    + intro H2. apply (Df key' H), Hi, H2.
+    + exact Hk2.
+Qed.
+
+Lemma st_del_top older k v : ~ In k (map fst older) -> st_del (older ++ [(k, v)]) k = older.
+Proof.
+  intro H. unfold st_del. rewrite filter_app. cbn [filter fst]. rewrite Z.eqb_refl. cbn [negb]. rewrite app_nil_r.
+  apply filter_all. intros e He. destruct (Z.eqb_spec (fst e) k) as [E | N]; [| reflexivity].
+  exfalso. apply H. rewrite <- E. apply in_map, He.
+Qed.
+
+(** the closing phase of [splitStep], as a function *)
+Definition cphase (k : Z) (stk1 : stack) (done : complete) (tempRing : list pt) : res (stack * complete) :=
+  do closed <- first_last_eq tempRing;
+  if closed then Ok (st_del stk1 k, done ++ [(k, removelast tempRing)])
+  else
+    match rev stk1 with
+    | [] => Ok (stk1, done)
+    | _newest :: older =>
+        do r <- prependLoop older tempRing [k];
+        match r with
+        | None => Ok (stk1, done)
+        | Some (stackIdx, ringDone, toRemove) =>
+            Ok (fold_left st_del toRemove stk1, done ++ [(stackIdx, ringDone)])
+        end
+    end.
+
+Lemma cphase_refines k older cur v done r0 vprev rest K2 D2 :
+  kinv k (older ++ [(k, cur)]) done -> map snd older = rev rest -> ainv r0 vprev (cur :: rest) ->
+  aphase cur rest (map snd done) v = (K2, D2) ->
+  exists stk2 done2, cphase k (older ++ [(k, cur ++ [v])]) done (cur ++ [v]) = Ok (stk2, done2) /\
+                     phase_ok k (older ++ [(k, cur)]) stk2 done2 K2 D2.
+Proof.
+  intros Hk Hv Ha Eph.
+  assert (Hq : cur <> []) by (pose proof (a_ne _ _ _ Ha) as H; inversion H; assumption).
+  assert (Hrest : Forall (fun q => q <> []) rest) by (pose proof (a_ne _ _ _ Ha) as H; inversion H; assumption).
+  set (t := cur ++ [v]) in *.
+  assert (Ht : t <> []) by (unfold t; intro E; apply app_eq_nil in E; destruct E; discriminate).
+  pose proof (k_nodup _ _ _ Hk) as Kn. rewrite map_app in Kn. cbn [map fst] in Kn.
+  destruct (NoDup_snoc_inv _ _ Kn) as [Hko Hno].
+  assert (Hkeys : map fst (older ++ [(k, t)]) = map fst (older ++ [(k, cur)])) by (rewrite !map_app; reflexivity).
+  assert (Hkin : In k (map fst (older ++ [(k, cur)]))).
+  { rewrite map_app. apply in_or_app. right. left. reflexivity. }
+  unfold cphase. rewrite first_last_eq_spec by exact Ht. cbn [bind]. unfold aphase in Eph. fold t in Eph.
+  destruct (closedb t) eqn:C.
+  - rewrite aclose_closed in Eph by exact C. inversion Eph; subst K2 D2.
+    rewrite st_del_top by exact Hko. eexists _, _. split; [reflexivity |]. constructor.
+    + exact Hv.
+    + rewrite map_app. unfold t. rewrite removelast_last. reflexivity.
+    + rewrite map_app. apply incl_appl, incl_refl.
+    + apply (kinv_complete k (older ++ [(k, cur)])); try assumption.
+      rewrite map_app. apply incl_appl, incl_refl.
+  - rewrite rev_unit.
+    assert (Hm : map snd (rev older) = rest) by (rewrite map_rev, Hv, rev_involutive; reflexivity).
+    assert (Hc : chain (t :: map snd (rev older))).
+    { rewrite Hm. apply (chain_replace_hd _ cur); [apply hd_app, Hq | apply (a_chain _ _ _ Ha)]. }
+    assert (Hne : Forall (fun q => q <> []) (map snd (rev older))) by (rewrite Hm; exact Hrest).
+    destruct (prepend_spec (rev older) t [k] Hc Hne Ht C) as [[E1 E2] | [B [e [R [ring [E0 [E1 E2]]]]]]].
+    + rewrite E1. cbn [bind]. rewrite Hm in E2. rewrite E2 in Eph. inversion Eph; subst K2 D2.
+      eexists _, _. split; [reflexivity |]. constructor.
+      * rewrite map_app. cbn [map snd rev]. rewrite Hv. reflexivity.
+      * reflexivity.
+      * rewrite Hkeys. apply incl_refl.
+      * destruct Hk as [Kn' Kl Dn Dl Df]. constructor; try assumption.
+        -- rewrite Hkeys. exact Kn'.
+        -- apply Forall_app. apply Forall_app in Kl. destruct Kl as [Kl1 Kl2]. split; [exact Kl1 |].
+           constructor; [| constructor]. inversion Kl2; assumption.
+        -- rewrite Hkeys. exact Df.
+    + rewrite E1. cbn [bind]. rewrite Hm in E2. rewrite E2 in Eph. inversion Eph; subst K2 D2.
+      assert (Eo : older = rev R ++ e :: rev B).
+      { rewrite <- (rev_involutive older), E0, rev_app_distr. cbn [rev]. rewrite <- app_assoc. reflexivity. }
+      rewrite Eo in Hno, Hko. rewrite map_app in Hno, Hko. cbn [map] in Hno, Hko.
+      assert (Hf : fold_left st_del ([k] ++ map fst B ++ [fst e]) (older ++ [(k, t)]) = rev R).
+      { rewrite fold_st_del, Eo, <- app_assoc, filter_app.
+        rewrite filter_all, filter_none; [apply app_nil_r | |].
+        - intros x Hx. apply negb_false_iff, mem_Z_In.
+          change (e :: rev B) with ([e] ++ rev B) in Hx. rewrite <- app_assoc in Hx.
+          apply in_app_or in Hx. destruct Hx as [[<- | []] | Hx].
+          + apply in_or_app. right. apply in_or_app. right. left. reflexivity.
+          + apply in_app_or in Hx. destruct Hx as [Hx | [<- | []]].
+            * apply in_or_app. right. apply in_or_app. left. apply in_map. apply in_rev. exact Hx.
+            * left. reflexivity.
+        - intros x Hx. apply negb_true_iff. destruct (mem_Z (fst x) ([k] ++ map fst B ++ [fst e])) eqn:M; [| reflexivity].
+          exfalso. apply mem_Z_In in M. apply (in_map fst) in Hx.
+          destruct M as [<- | M].
+          + apply Hko. apply in_or_app. left. exact Hx.
+          + apply (NoDup_app_disjoint _ _ _ Hno Hx). apply in_app_or in M. destruct M as [M | [<- | []]].
+            * right. rewrite map_rev. apply in_rev. rewrite rev_involutive. exact M.
+            * left. reflexivity. }
+      rewrite Hf. eexists _, _. split; [reflexivity |]. constructor.
+      * rewrite map_rev. reflexivity.
+      * rewrite map_app. reflexivity.
+      * rewrite Eo, !map_app. apply incl_appl, incl_appl, incl_refl.
+      * apply (kinv_complete k (older ++ [(k, cur)])); try assumption.
+        -- rewrite Eo, !map_app. apply incl_appl, incl_appl, incl_refl.
+        -- apply (NoDup_app_l _ _ Hno).
+        -- rewrite Eo, !map_app. apply in_or_app. left. apply in_or_app. right. left. reflexivity.
+        -- intro H. apply (NoDup_app_disjoint _ _ _ Hno H). left. reflexivity.
+Qed.
